@@ -102,3 +102,64 @@ package decorator
 //@ loop 2 invariant cursor: end >= r.cursor
 //@ loop 2 invariant comments: forall i int :: 0 <= i && i < len(r.comments) ==> cgEnd(r.comments[i]) < end
 //@ loop 2 invariant lines: forall i int :: 0 <= i && i < $i ==> r.lines[i] + r.base < end
+
+// ---------------------------------------------------------------------------------------------
+// restoreNode (restorer-generated.go), one verification unit per node type.
+//
+// The contract below is what a recursive call may rely on. Per-type obligations (fields and
+// decorations rendered, positions, maps) are expanded by the machinery from the struct
+// definitions of dst.T and ast.T.
+
+//@ pred (r *FileRestorer) mapsReady() bool { r.Restorer != nil && r.Ast.Nodes != nil && r.Dst.Nodes != nil }
+
+// The node maps of the restorer: keys and values are allocated, non-nil nodes. The inverse laws
+// are carried per entry: each case registers its own pair (Ast.Nodes[n] == out, Dst.Nodes[out] == n)
+// and no call ever changes an entry that existed when it started (ast_map_grows, dst_map_grows).
+//@ pred (r *FileRestorer) mapsInv() bool {
+//@   r.mapsReady() &&
+//@   (forall k dst.Node :: {has(r.Ast.Nodes, k)} has(r.Ast.Nodes, k) ==> ref(k) != 0 && allocated(ref(k)) && ref(r.Ast.Nodes[k]) != 0 && allocated(ref(r.Ast.Nodes[k]))) &&
+//@   (forall a ast.Node :: {has(r.Dst.Nodes, a)} has(r.Dst.Nodes, a) ==> ref(a) != 0 && allocated(ref(a)))
+//@ }
+
+//@ func (r *FileRestorer) restoreNode
+//@ requires inv: r.inv()
+//@ requires maps: r.mapsInv()
+//@ modifies r.cursor, r.lines, r.cursorAtNewLine, r.comments, elems(int), elems(*ast.CommentGroup), elems(*ast.Comment), heap(ast.Field.Comment), heap(ast.ImportSpec.Comment), heap(ast.ValueSpec.Comment), heap(ast.TypeSpec.Comment), heap(ast.CommentGroup.List), heap(ast.Comment.Slash), heap(ast.Comment.Text), map(dst.Node, ast.Node), map(ast.Node, dst.Node), map(*dst.Object, *ast.Object), map(*ast.Object, *dst.Object), map(*dst.Scope, *ast.Scope), map(*ast.Scope, *dst.Scope), map(*ast.Object, dst.Node), newobjects
+//@ ensures inv: r.inv()
+//@ ensures maps: r.mapsInv()
+//@ ensures cursor_monotone: r.cursor >= old(r.cursor)
+//@ ensures lines_prefix: len(r.lines) >= old(len(r.lines)) && (forall j int :: 0 <= j && j < old(len(r.lines)) ==> r.lines[j] == old(r.lines[j]))
+//@ ensures comments_prefix: len(r.comments) >= old(len(r.comments)) && (forall j int :: 0 <= j && j < old(len(r.comments)) ==> r.comments[j] == old(r.comments[j]))
+//@ ensures mapped: r.Ast.Nodes[n] == result && has(r.Ast.Nodes, n)
+//@ ensures mapped_back: !old(has(r.Ast.Nodes, n)) ==> r.Dst.Nodes[result] == n && has(r.Dst.Nodes, result)
+//@ ensures result_not_nil: ref(result) != 0 && ref(n) != 0
+//@ ensures ast_map_grows: forall k dst.Node :: {has(r.Ast.Nodes, k)} old(has(r.Ast.Nodes, k)) ==> has(r.Ast.Nodes, k) && r.Ast.Nodes[k] == old(r.Ast.Nodes[k])
+//@ ensures dst_map_grows: forall k ast.Node :: {has(r.Dst.Nodes, k)} old(has(r.Dst.Nodes, k)) ==> has(r.Dst.Nodes, k) && r.Dst.Nodes[k] == old(r.Dst.Nodes[k])
+//@ ensures duplicates_rejected: allowDuplicate || !old(has(r.Ast.Nodes, n))
+//@ ensures fresh_unless_duplicate: !old(has(r.Ast.Nodes, n)) ==> !wasAllocated(ref(result))
+//@ foreach invariant count: 0 <= $i && $i <= len($src)
+//@ foreach invariant length: len($dst) == $i
+//@ foreach invariant elems: forall j int :: 0 <= j && j < $i ==> has(r.Ast.Nodes, $src[j]) && r.Ast.Nodes[$src[j]] == $dst[j]
+//@ foreach invariant backing: $i == 0 ? $dst == nil : (!wasAllocated(arr($dst)) && arr($dst) >= entry(allocCounter()) && allocated(arr($dst)))
+//@ foreach invariant old_rows: rowsKeptSinceLoopEntry()
+//@ foreach invariant inv: r.inv()
+//@ foreach invariant maps: r.mapsInv()
+//@ foreach invariant cursor_monotone: r.cursor >= entry(r.cursor)
+//@ foreach invariant lines_prefix: len(r.lines) >= entry(len(r.lines)) && (forall j int :: 0 <= j && j < entry(len(r.lines)) ==> r.lines[j] == entry(r.lines[j]))
+//@ foreach invariant comments_prefix: len(r.comments) >= entry(len(r.comments)) && (forall j int :: 0 <= j && j < entry(len(r.comments)) ==> r.comments[j] == entry(r.comments[j]))
+//@ foreach invariant ast_map_grows: forall k dst.Node :: {has(r.Ast.Nodes, k)} entry(has(r.Ast.Nodes, k)) ==> has(r.Ast.Nodes, k) && r.Ast.Nodes[k] == entry(r.Ast.Nodes[k])
+//@ foreach invariant dst_map_grows: forall k ast.Node :: {has(r.Dst.Nodes, k)} entry(has(r.Dst.Nodes, k)) ==> has(r.Dst.Nodes, k) && r.Dst.Nodes[k] == entry(r.Dst.Nodes[k])
+//@ case BadDecl
+//@ assumes length_nonnegative: forall b *dst.BadDecl :: b.Length >= 0
+//@ case BadExpr
+//@ assumes length_nonnegative: forall b *dst.BadExpr :: b.Length >= 0
+//@ case BadStmt
+//@ assumes length_nonnegative: forall b *dst.BadStmt :: b.Length >= 0
+
+//@ func (r *FileRestorer) restoreObject
+//@ modifies map(*dst.Object, *ast.Object), map(*ast.Object, *dst.Object), map(*dst.Scope, *ast.Scope), map(*ast.Scope, *dst.Scope), map(*ast.Object, dst.Node), newobjects
+//@ ensures extras_off: !r.Extras ==> result == nil
+
+//@ func (r *FileRestorer) restoreScope
+//@ modifies map(*dst.Object, *ast.Object), map(*ast.Object, *dst.Object), map(*dst.Scope, *ast.Scope), map(*ast.Scope, *dst.Scope), map(*ast.Object, dst.Node), newobjects
+//@ ensures extras_off: !r.Extras ==> result == nil
